@@ -189,3 +189,265 @@ Proof.
     rewrite Hsl, Hpad, Hks, Hst; cbn [bind]; rewrite Hout; cbn [bind];
     rewrite py_index_0; reflexivity.
 Qed.
+
+(* ---------- C05 / C19: constructors ---------- *)
+Lemma shape_eqb_eq (a b : list Z) : shape_eqb a b = true <-> a = b.
+Proof.
+  unfold shape_eqb. revert b. induction a as [|x a IH]; intros [|y b]; cbn [list_eqb];
+    try (split; [discriminate|discriminate]); try (split; reflexivity).
+  rewrite Bool.andb_true_iff, IH, Z.eqb_eq. split.
+  - intros [-> ->]. reflexivity.
+  - intros H. inversion H. split; reflexivity.
+Qed.
+
+Lemma shape_eqb_refl (a : list Z) : shape_eqb a a = true.
+Proof. apply shape_eqb_eq. reflexivity. Qed.
+
+Lemma all_same_spec (l : list (list Z)) :
+  all_same l = true <-> (forall a b, In a l -> In b l -> a = b).
+Proof.
+  induction l as [|x l IH]; [cbn; split; [intros _ a b []|reflexivity]|].
+  destruct l as [|y l].
+  - cbn. split; [intros _ a b [<-|[]] [<-|[]]; reflexivity|reflexivity].
+  - change (all_same (x :: y :: l)) with (shape_eqb x y && all_same (y :: l)).
+    rewrite Bool.andb_true_iff, shape_eqb_eq, IH. split.
+    + intros [-> H] a b [<-|Ha] [<-|Hb]; try reflexivity.
+      * apply H; [left; reflexivity|assumption].
+      * apply H; [assumption|left; reflexivity].
+      * apply H; assumption.
+    + intros H. split.
+      * apply H; [left; reflexivity|right; left; reflexivity].
+      * intros a b Ha Hb. apply H; right; assumption.
+Qed.
+
+(* element-wise primitives: accepted iff every listed parameter has a .shape and all are equal;
+   then both types are that common shape *)
+Lemma elementwise_ok k fs names n :
+  elementwise k fs names = Ok n <->
+  exists sh rest, mapM (fun f => fld_shape f fs) names = Ok (sh :: rest)
+                  /\ all_same (sh :: rest) = true
+                  /\ n = Leaf k (drop_types fs) (arr_ty "input" sh) (arr_ty "output" sh).
+Proof.
+  unfold elementwise. destruct (mapM _ names) as [shapes|e]; cbn [bind].
+  - destruct (all_same shapes) eqn:Hs.
+    + destruct shapes as [|sh rest].
+      * split; [discriminate|intros (sh & rest & H & _); discriminate].
+      * split.
+        -- intros H. inversion H. exists sh, rest. repeat split; assumption.
+        -- intros (sh' & rest' & H & _ & ->). inversion H. reflexivity.
+    + split; [discriminate|]. intros (sh & rest & H & Hs' & _). inversion H. subst. congruence.
+  - split; [discriminate|intros (sh & rest & H & _); discriminate].
+Qed.
+
+Lemma firstn_nth_split (w : list Z) :
+  (2 <= length w)%nat ->
+  w = firstn (length w - 2) w ++ [nth (length w - 2) w 0; nth (length w - 1) w 0].
+Proof.
+  intros H. rewrite <- (firstn_skipn (length w - 2) w) at 1. f_equal.
+  remember (skipn (length w - 2) w) as t eqn:Ht.
+  assert (Hl : length t = 2%nat) by (subst t; rewrite skipn_length; lia).
+  destruct t as [|a [|b [|c t]]]; cbn in Hl; try lia.
+  assert (Ha : nth (length w - 2) w 0 = a).
+  { rewrite <- (firstn_skipn (length w - 2) w) at 2. rewrite app_nth2; rewrite firstn_length_le by lia; [|lia].
+    rewrite Nat.sub_diag, <- Ht. reflexivity. }
+  assert (Hb : nth (length w - 1) w 0 = b).
+  { rewrite <- (firstn_skipn (length w - 2) w) at 2. rewrite app_nth2; rewrite firstn_length_le by lia; [|lia].
+    replace (length w - 1 - (length w - 2))%nat with 1%nat by lia. rewrite <- Ht. reflexivity. }
+  rewrite Ha, Hb. reflexivity.
+Qed.
+
+(* the batched matrix-vector shape rule: W : b ++ [m; n] maps x : b ++ [n] to y : b ++ [m] *)
+Definition matvec_rel (w x y : list Z) : Prop :=
+  exists b m n, w = b ++ [m; n] /\ x = b ++ [n] /\ y = b ++ [m].
+
+Lemma matvec_ok k fs n :
+  matvec k fs = Ok n <->
+  exists w, fld_shape "weight" fs = Ok w /\ (2 <= length w)%nat /\
+            exists x y, matvec_rel w x y /\
+                        n = Leaf k (drop_types fs) (arr_ty "input" x) (arr_ty "output" y).
+Proof.
+  unfold matvec. destruct (fld_shape "weight" fs) as [w|e]; cbn [bind].
+  - destruct (Nat.ltb (length w) 2) eqn:Hl.
+    + apply Nat.ltb_lt in Hl. split; [discriminate|]. intros (w' & H & H2 & _). inversion H. subst. lia.
+    + apply Nat.ltb_ge in Hl. split.
+      * intros H. inversion H. exists w. repeat split; try assumption.
+        eexists _, _. split; [|reflexivity].
+        exists (firstn (length w - 2) w), (nth (length w - 2) w 0), (nth (length w - 1) w 0).
+        repeat split. apply firstn_nth_split. assumption.
+      * intros (w' & H & H2 & x & y & (b & m & nn & Hw & -> & ->) & ->). inversion H. subst w'.
+        subst w. rewrite !app_length. cbn [length].
+        replace (length b + 2 - 2)%nat with (length b) by lia.
+        replace (length b + 2 - 1)%nat with (S (length b)) by lia.
+        rewrite firstn_app, firstn_all, Nat.sub_diag. cbn [firstn]. rewrite app_nil_r.
+        rewrite !app_nth2 by lia. rewrite Nat.sub_diag.
+        replace (S (length b) - length b)%nat with 1%nat by lia. reflexivity.
+  - split; [discriminate|intros (w & H & _); discriminate].
+Qed.
+
+(* matvec_rel is functional in w: x and y are determined *)
+Lemma app2_inj (b b' : list Z) m n m' n' :
+  b ++ [m; n] = b' ++ [m'; n'] -> b = b' /\ m = m' /\ n = n'.
+Proof.
+  intros H.
+  replace (b ++ [m; n]) with ((b ++ [m]) ++ [n]) in H by (rewrite <- app_assoc; reflexivity).
+  replace (b' ++ [m'; n']) with ((b' ++ [m']) ++ [n']) in H by (rewrite <- app_assoc; reflexivity).
+  apply app_inj_tail_iff in H as [H ->]. apply app_inj_tail_iff in H as [-> ->]. auto.
+Qed.
+
+Lemma matvec_rel_fun w x y x' y' : matvec_rel w x y -> matvec_rel w x' y' -> x = x' /\ y = y'.
+Proof.
+  intros (b & m & n & Hw & -> & ->) (b' & m' & n' & Hw' & -> & ->). subst w.
+  apply app2_inj in Hw' as (-> & -> & ->). split; reflexivity.
+Qed.
+
+(* Input / Output mirror the normalised shape to the other side *)
+Lemma bind_input x : bind_args KInput [("input_type", x)] = Ok [("input_type", x); ("metadata", VDict [])].
+Proof. reflexivity. Qed.
+Lemma bind_output x : bind_args KOutput [("output_type", x)] = Ok [("output_type", x); ("metadata", VDict [])].
+Proof. reflexivity. Qed.
+
+Lemma parse_shape_arg_key sh x tv key : shape_arg sh x tv -> parse_shape x key = Ok [(key, tv)].
+Proof. intros H; destruct H; cbn; try rewrite H; reflexivity. Qed.
+
+Lemma input_construct sh x tv :
+  shape_arg sh x tv ->
+  construct KInput [("input_type", x)] =
+  Ok (Leaf KInput [("metadata", VDict [])] (arr_ty "input" sh) (arr_ty "output" sh)).
+Proof.
+  intros H. unfold construct. rewrite bind_input. cbn [bind]. unfold post_init.
+  cbn [fld assoc String.eqb Ascii.eqb Bool.eqb bind].
+  rewrite (parse_shape_arg_key _ _ _ "input" H), (shape_arg_nums _ _ _ H). reflexivity.
+Qed.
+
+Lemma output_construct sh x tv :
+  shape_arg sh x tv ->
+  construct KOutput [("output_type", x)] =
+  Ok (Leaf KOutput [("metadata", VDict [])] (arr_ty "input" sh) (arr_ty "output" sh)).
+Proof.
+  intros H. unfold construct. rewrite bind_output. cbn [bind]. unfold post_init.
+  cbn [fld assoc String.eqb Ascii.eqb Bool.eqb bind].
+  rewrite (parse_shape_arg_key _ _ _ "output" H), (shape_arg_nums _ _ _ H). reflexivity.
+Qed.
+
+Lemma input_construct_dict sh dt tok n :
+  construct KInput [("input_type", VDict [("input", VArr dt [n] tok (Some sh))])] =
+  Ok (Leaf KInput [("metadata", VDict [])] (arr_ty "input" sh) (arr_ty "output" sh)).
+Proof. reflexivity. Qed.
+
+Lemma output_construct_dict sh dt tok n :
+  construct KOutput [("output_type", VDict [("output", VArr dt [n] tok (Some sh))])] =
+  Ok (Leaf KOutput [("metadata", VDict [])] (arr_ty "input" sh) (arr_ty "output" sh)).
+Proof. reflexivity. Qed.
+
+(* padding strings *)
+Lemma pad_string_ok s : pad_is_bad_string (VStr s) = false <-> s = "same" \/ s = "valid".
+Proof.
+  cbn [pad_is_bad_string]. rewrite Bool.negb_false_iff, Bool.orb_true_iff, !String.eqb_eq. tauto.
+Qed.
+
+Lemma pad_bytes_bad s : pad_is_bad_string (VBytes s) = true.
+Proof. reflexivity. Qed.
+
+Lemma conv_rejects_bad_padding k fs pad :
+  k = KConv1d \/ k = KConv2d -> fld "padding" fs = Ok pad -> pad_is_bad_string pad = true ->
+  post_init k fs = Err ValueError.
+Proof. intros [->| ->] H Hb; unfold post_init; rewrite H; cbn [bind]; rewrite Hb; reflexivity. Qed.
+
+(* ---------- CubaLIF ---------- *)
+Definition cuba_params : list string := ["tau_syn"; "tau_mem"; "r"; "v_leak"; "v_threshold"].
+
+Lemma mapM_ok_all {A B} (f : A -> result B) l r :
+  mapM f l = Ok r -> Forall2 (fun a b => f a = Ok b) l r.
+Proof.
+  revert r. induction l as [|x l IH]; intros r H; cbn [mapM] in H.
+  - inversion H. constructor.
+  - destruct (f x) eqn:Hx; cbn [bind] in H; [|discriminate].
+    destruct (mapM f l) eqn:Hl; cbn [bind] in H; [|discriminate].
+    inversion H. constructor; [assumption|apply IH; reflexivity].
+Qed.
+
+Lemma mapM_all_ok {A B} (f : A -> result B) l r :
+  Forall2 (fun a b => f a = Ok b) l r -> mapM f l = Ok r.
+Proof.
+  induction 1 as [|x y l r Hx _ IH]; cbn [mapM]; [reflexivity|]. rewrite Hx, IH. reflexivity.
+Qed.
+
+Definition w_in_materialised (sh : list Z) (w : pval) : pval := VArr "?" sh (-1) None.
+
+Lemma w_in_materialised_shape sh w : shape_attr (w_in_materialised sh w) = Ok sh.
+Proof. reflexivity. Qed.
+
+(* accepted => all five parameters share one shape, w_in broadcasts to exactly that shape, and the
+   stored w_in is materialised to it; both types are that shape *)
+Lemma cuba_accepts fs n :
+  post_init KCubaLIF fs = Ok n ->
+  exists sh w wsh,
+    (forall p, In p cuba_params -> fld_shape p fs = Ok sh) /\
+    fld "w_in" fs = Ok w /\ operand_shape w = Ok wsh /\ broadcast_shapes sh wsh = Some sh /\
+    n = Leaf KCubaLIF (assoc_set "w_in" (w_in_materialised sh w) (drop_types fs))
+             (arr_ty "input" sh) (arr_ty "output" sh).
+Proof.
+  unfold post_init. intros H.
+  destruct (elementwise KCubaLIF fs _) as [n0|] eqn:He; cbn [bind] in H; [|discriminate].
+  apply elementwise_ok in He as (sh & rest & Hm & Hs & ->).
+  pose proof (mapM_ok_all _ _ _ Hm) as HF.
+  rewrite all_same_spec in Hs.
+  assert (Hall : forall p, In p cuba_params -> fld_shape p fs = Ok sh).
+  { inversion HF as [|? ? ? ? H1 HF1]; subst. inversion HF1 as [|? ? ? ? H2 HF2]; subst.
+    inversion HF2 as [|? ? ? ? H3 HF3]; subst. inversion HF3 as [|? ? ? ? H4 HF4]; subst.
+    inversion HF4 as [|? ? ? ? H5 HF5]; subst. inversion HF5; subst.
+    intros p [<-|[<-|[<-|[<-|[<-|[]]]]]].
+    - assumption.
+    - rewrite H2. f_equal. symmetry. apply Hs; cbn; auto 10.
+    - rewrite H3. f_equal. symmetry. apply Hs; cbn; auto 10.
+    - rewrite H4. f_equal. symmetry. apply Hs; cbn; auto 10.
+    - rewrite H5. f_equal. symmetry. apply Hs; cbn; auto 10. }
+  rewrite (Hall "v_threshold") in H by (cbn; auto 6). cbn [bind] in H.
+  destruct (fld "w_in" fs) as [w|] eqn:Hw; cbn [bind] in H; [|discriminate].
+  destruct (operand_shape w) as [wsh|] eqn:Hws; cbn [bind] in H; [|discriminate].
+  destruct (broadcast_shapes sh wsh) as [r|] eqn:Hb; [|discriminate].
+  destruct (shape_eqb r sh) eqn:Hr; [|discriminate].
+  apply shape_eqb_eq in Hr. subst r.
+  exists sh, w, wsh. repeat split; try assumption.
+  inversion H. reflexivity.
+Qed.
+
+(* well-formed => accepted *)
+Lemma cuba_accepts_conv fs sh w wsh :
+  (forall p, In p cuba_params -> fld_shape p fs = Ok sh) ->
+  fld "w_in" fs = Ok w -> operand_shape w = Ok wsh -> broadcast_shapes sh wsh = Some sh ->
+  post_init KCubaLIF fs =
+  Ok (Leaf KCubaLIF (assoc_set "w_in" (w_in_materialised sh w) (drop_types fs))
+           (arr_ty "input" sh) (arr_ty "output" sh)).
+Proof.
+  intros Hall Hw Hws Hb. unfold post_init.
+  assert (He : elementwise KCubaLIF fs cuba_params =
+               Ok (Leaf KCubaLIF (drop_types fs) (arr_ty "input" sh) (arr_ty "output" sh))).
+  { apply elementwise_ok. exists sh, [sh; sh; sh; sh]. repeat split.
+    - apply mapM_all_ok. unfold cuba_params.
+      repeat (constructor; [apply Hall; cbn; auto 6|]). constructor.
+    - cbn [all_same]. rewrite !shape_eqb_refl. reflexivity. }
+  unfold cuba_params in He. rewrite He. cbn [bind].
+  rewrite (Hall "v_threshold") by (cbn; auto 6). cbn [bind].
+  rewrite Hw. cbn [bind]. rewrite Hws. cbn [bind]. rewrite Hb, shape_eqb_refl.
+  reflexivity.
+Qed.
+
+(* rejected when the broadcast result is not the parameter shape (w_in broadcasts "up") *)
+Lemma cuba_rejects_up fs sh w wsh r :
+  (forall p, In p cuba_params -> fld_shape p fs = Ok sh) ->
+  fld "w_in" fs = Ok w -> operand_shape w = Ok wsh -> broadcast_shapes sh wsh = Some r -> r <> sh ->
+  post_init KCubaLIF fs = Err AssertionError.
+Proof.
+  intros Hall Hw Hws Hb Hne. unfold post_init.
+  assert (He : elementwise KCubaLIF fs cuba_params =
+               Ok (Leaf KCubaLIF (drop_types fs) (arr_ty "input" sh) (arr_ty "output" sh))).
+  { apply elementwise_ok. exists sh, [sh; sh; sh; sh]. repeat split.
+    - apply mapM_all_ok. unfold cuba_params.
+      repeat (constructor; [apply Hall; cbn; auto 6|]). constructor.
+    - cbn [all_same]. rewrite !shape_eqb_refl. reflexivity. }
+  unfold cuba_params in He. rewrite He. cbn [bind].
+  rewrite (Hall "v_threshold") by (cbn; auto 6). cbn [bind].
+  rewrite Hw. cbn [bind]. rewrite Hws. cbn [bind]. rewrite Hb.
+  destruct (shape_eqb r sh) eqn:E; [apply shape_eqb_eq in E; contradiction|reflexivity].
+Qed.
